@@ -466,7 +466,9 @@ USES = ['A;', 'B;', 'F(2);', 'F(A);', 'F(B);', 'G(1, F(2));', 'G((1,2), 3);', 'G
         # a parameter that is both stringized and substituted
         'SX(a b);', 'SX(A);', 'SX(obj);', 'SX(F(1));', 'SX(t(t(A)) + E());', 'SX((F)(2));',
         # `#` is an operator only in the replacement list of a function-like macro; in an object-like macro it is an ordinary token
-        'HASH;', 'HH;', 'XS(HASH);', 'S(HASH);', 'FH(1);', 'F(HASH);', 't(HH) HASH;']
+        'HASH;', 'HH;', 'XS(HASH);', 'S(HASH);', 'FH(1);', 'F(HASH);', 't(HH) HASH;',
+        # a function-like macro name that ends an argument (or a whole replacement) and is not followed by `(`, or only after the enclosing expansion has ended
+        't(t) ;', 't(F) ;', 't(N) x;', 't(t)(3);', 't(F)(4) ;', 'G(t, F) ;', 'G(t, F)(5) ;', 't(t(t)) ; t(t)(t)(6);', 'm(F) + t(m);']
 BAD = [('F(1;', 'EOF'), ('G(1);', 'not enough'), ('F(1,2);', 'too many'), ('E(1);', 'too many')]
 
 REDEF = [
@@ -667,3 +669,5 @@ def run(chk, tier):
     chk.guard('C12.b', lambda: rule_redef(chk, prog, tier))
     chk.guard('C12.c', lambda: rule_directives(chk, prog, tier))
     chk.guard('C12.g', lambda: rule_random(chk, prog, tier))
+    from props import c19
+    chk.guard('C19.l', lambda: c19.rule_pp_uaf(chk, prog, tier))      # the tokens an expansion yields must still exist when they are delivered
